@@ -4,7 +4,8 @@ Driver/DfaQuery.lean — commands of drv_dfa_query (C13, C14, C20).  Core only.
   COUNT  <dfa> k                → v  levels(0..k) × states(0..n-1) counts
   WORDS  <dfa> k                → words  levels(0..k) × states word lists
   MINMAX <dfa>                  → min <res> max <res> empty b finite <res>
-  CARD   <dfa>                  → card <res> len <res>
+  CARD   <dfa>                  → card <res> len <res>     (len = the builtin: `err OverflowError` from 2^63 on)
+  DAGLEN <edges> <V>            → N | longest path length   (`dagLongestPathLength` on the subgraph induced by V)
   ITER   <dfa> n maxLevels      → ok <words> <end> | err E
   RANDOM <dfa> k <choices>      → <res word>
   SUCCS  <dfa> <start> strict rev min max <keys> n fuel → words … end … first …
@@ -16,6 +17,7 @@ symbol rank.
 -/
 import AutomataVerif.Driver.Proto
 import AutomataVerif.Model.DFACache
+import AutomataVerif.Model.DFALen
 
 namespace AV.Driver.DfaQuery
 open AV AV.Proto AV.DFA
@@ -71,9 +73,21 @@ def cmdMinMax : P String := do
     "empty", showBool d.isEmpty,
     "finite", showRes showBool d.isFinite])
 
+def showLen : Except LenErr Nat → String
+  | .ok n => "ok " ++ toString n
+  | .error e => "err " ++ e.name
+
 def cmdCard : P String := do
   let d ← dfa
-  pure (" ".intercalate ["card", showRes toString d.cardinality, "len", showRes toString d.len])
+  pure (" ".intercalate ["card", showRes toString d.cardinality, "len", showLen d.lenBuiltin])
+
+/-- `nx.dag_longest_path_length(graph.subgraph(V))` through the contract function of the model
+(`none` = `NetworkXUnfeasible`), on an arbitrary digraph given by its edge list. -/
+def cmdDagLen : P String := do
+  let edges ← many (do let u ← int; let v ← int; pure (u, v))
+  let vs ← many int
+  let g : Digraph Int := { nodes := vs, edges := edges }
+  pure (showOptNat (dagLongestPathLength g.succ vs))
 
 /-- First `n` words of `iter(dfa)`: run the loop for more and more bodies. -/
 def iterFirst (d : D) (n maxLevels : Nat) : Res (List (List Int) × String) :=
@@ -203,6 +217,7 @@ def handle (cmd : String) (args : List String) : Except String String :=
   | "WORDS" => run cmdWords args
   | "MINMAX" => run cmdMinMax args
   | "CARD" => run cmdCard args
+  | "DAGLEN" => run cmdDagLen args
   | "ITER" => run cmdIter args
   | "RANDOM" => run cmdRandom args
   | "SUCCS" => run cmdSuccs args
